@@ -111,6 +111,32 @@ def random_service(rng: Any) -> dict[str, Any]:
     return _svc(classes, methods, rng.choice([0, 1, 3, 4096, 4096]))
 
 
+def reason_of(message: str | None) -> int:
+    """Refusal class (M_TokMethod.outcome) of a real 400 body."""
+    m = message or ""
+    table = [
+        ("State token signature verification failed", 1),
+        ("Missing call token in exchange request", 2),
+        ("Call token signature verification failed", 3),
+        ("State token does not belong to the supplied call token", 4),
+        ("declares call-state type", 5),
+        ("Cannot deserialize union state from untagged token", 7),
+        ("Unknown union state tag", 8),
+        ("has no compact layout", 9),
+        ("Missing fields in", 10),
+        ("missing 1 required positional argument", 10),
+        ("required positional argument", 10),
+        ("for Enum deserialization", 11),
+        ("is not a valid", 11),
+    ]
+    for needle, code in table:
+        if needle in m:
+            return code
+    if m.startswith("RuntimeError: Failed to deserialize state: "):
+        return 6  # whatever pyarrow says about bytes that are not an IPC stream
+    return 99
+
+
 # ---- Coq rendering ----------------------------------------------------------------------------------------------------
 class Render:
     def __init__(self, spec: dict[str, Any], state_types: dict[str, Any]) -> None:
@@ -293,7 +319,7 @@ def run(ctx: Any) -> None:
                 replay = {
                     "service": spec, "compact_codec": mp, "stream_started_by": c["origin"], "cursor_minted_at": c["minted_at"],
                     "presented_at": c["endpoint"], "identity": c["ident"], "cursor": c["cursor"], "call_token": c["call"],
-                    "cancel": c["cancel"], "cache_hit": hit, "http_status": obs["status"], "method_saw": log[:1],
+                    "cancel": c["cancel"], "cache_hit": hit, "http_status": obs["status"], "method_saw": log[:1], "message": obs["message"],
                 }
                 # ---- property oracle on the implementation (independent of the model) ----
                 if foreign and acc:
@@ -327,7 +353,9 @@ def run(ctx: Any) -> None:
                     exp = (f"(Accepted {ins} {R.cls_ids[rec['cls']]} {R.cols(rec['vals'])} "
                            f"{{| r_cstate := {R.cst(rec['cstate'])}; r_out := {r_out}; r_in := {r_in}; r_sid := {rec['sid'] or 0} |}})")
                 else:
-                    exp = f"(Rejected {ins})"
+                    why = reason_of(obs["message"])
+                    ctx.tally("refusal_class", why)
+                    exp = f"(Rejected {ins} {why})"
                 if R.bad or obs["puts"] > 1 or len(obs["inserted"]) > 1:
                     exp = "(Accepted true 999 [] {| r_cstate := None; r_out := 0; r_in := 0; r_sid := 0 |})"  # not expressible: certain disagreement
                 key = inp + exp
